@@ -46,6 +46,80 @@ def _miri_signature(stderr):
     return "miri:%s:%s:%s" % (m.group(1), msg, where)
 
 
+FUZZ_SECONDS = int(os.environ.get("VERIF_FUZZ_SECONDS", "180"))
+
+
+def _fuzz_decode_phase(run_, vc, seed, phases):
+    """Coverage-guided differential fuzzing of the decoders (libFuzzer + AddressSanitizer, all cores): byte 0 selects the
+    decodable type, the oracle inside the target is the harness's own check against the reference decoder. The fuzzer only
+    proposes inputs: every artifact is re-judged by the uninstrumented `vc fuzzcase`, whose outcome is the verdict."""
+    import shutil
+    import tempfile
+    from . import wire
+    t0 = time.time()
+    try:
+        fz = build.build_fuzz("decode")
+    except build.BuildError as e:
+        run_.errors.append("decode fuzz target does not build: %s" % e)
+        return
+    work = tempfile.mkdtemp(prefix="verif-C11-fuzz-", dir=core.scratch_root())
+    corpus, art = os.path.join(work, "corpus"), os.path.join(work, "art")
+    os.makedirs(corpus)
+    os.makedirs(art)
+    bodies = [b"", b"\x00", b"\x01", b"\x04abcd", b"\x08\x04ab\x04cd", wire.enc_varuint(300) + b"x" * 40, wire.enc_varint(-70000),
+              wire.enc_generated_file("p.txt", "contents\n"), wire.enc_reply([("a.txt", "x")]), b"\x08\x01\x02\x03\x04",
+              (((2 ** 40) << 2) | 3).to_bytes(8, "little"), b"\x04p" + wire.enc_string("c") + wire.enc_varint(7) + wire.enc_varuint(2) + b"xy" + wire.TAG_END]
+    n = 0
+    for i in range(48):
+        for b in bodies:
+            with open(os.path.join(corpus, "s%04d" % n), "wb") as f:
+                f.write(bytes([i]) + b)
+            n += 1
+    env = dict(os.environ, ASAN_OPTIONS="detect_odr_violation=0:detect_leaks=0:allocator_may_return_null=1")
+    # a single large allocation is not an error here (announced sizes are reserved virtually; their cost is the native cost phase's matter)
+    cmd = [fz, corpus, "-timeout=10", "-rss_limit_mb=8000", "-malloc_limit_mb=2000000", "-max_len=96", "-fork=%d" % core.NPROC,
+           "-max_total_time=%d" % FUZZ_SECONDS, "-artifact_prefix=" + art + "/", "-ignore_crashes=1", "-ignore_timeouts=1", "-ignore_ooms=1",
+           "-seed=%d" % (seed + 1)]
+    try:
+        p = subprocess.run(cmd, env=env, cwd=work, stdout=subprocess.PIPE, stderr=subprocess.STDOUT, timeout=FUZZ_SECONDS + 300)
+        log = p.stdout.decode("utf-8", "replace")
+    except subprocess.TimeoutExpired as e:
+        log = (e.stdout or b"").decode("utf-8", "replace")
+        run_.inconclusive.append({"phase": "fuzz", "why": "fuzzer did not stop in time"})
+    stats = re.findall(r"^#(\d+): cov: (\d+) ft: (\d+) corp: (\d+)", log, flags=re.M)
+    if stats:
+        nexec, cov, ft, corp = map(int, stats[-1])
+        run_.stats["fuzz.executions"] = nexec
+        run_.stats["fuzz.coverage_edges"] = cov
+        run_.stats["fuzz.corpus_units"] = corp
+        run_.evaluations += nexec
+    else:
+        run_.errors.append("no progress line in the decode fuzzer log: %s" % log[-600:])
+    arts = sorted(os.listdir(art))
+    run_.stats["fuzz.artifacts"] = len(arts)
+    confirmed = 0
+    for name in arts[:200]:
+        with open(os.path.join(art, name), "rb") as f:
+            data = f.read()
+        q = subprocess.run([vc, "fuzzcase", data.hex()], stdout=subprocess.PIPE, stderr=subprocess.PIPE)
+        out = _parse_outcome(q.stdout)
+        if out is None:
+            # the uninstrumented harness itself died on this input: report it with what is known
+            run_.violations.append({"signature": "fuzz-artifact-kills-harness", "what": "[found by the fuzzer] vc fuzzcase %s: rc=%s %s"
+                                    % (data.hex()[:120], q.returncode, q.stderr[-300:].decode(errors="replace")),
+                                    "replay": {"kind": "codec", "phase": "fuzz", "how_to": "%s fuzzcase %s" % (vc, data.hex())}})
+            confirmed += 1
+            continue
+        for v in out["violations"]:
+            confirmed += 1
+            run_.violations.append({"signature": v["sig"], "what": "[found by the fuzzer] %s" % v["what"],
+                                    "replay": {"kind": "codec", "phase": "fuzz", "how_to": "%s replay %s" % (vc, v["replay"])}})
+    run_.stats["fuzz.artifacts_confirmed"] = confirmed
+    phases["fuzz"] = {"wall_s": round(time.time() - t0, 1), "seconds": FUZZ_SECONDS, "processes": core.NPROC, "artifacts": arts[:10],
+                      "note": "fork mode is not reproducible run to run; artifacts are re-judged deterministically by `vc fuzzcase`"}
+    shutil.rmtree(work, ignore_errors=True)
+
+
 def run(prop, sub, tier, seed, rule, required, assumptions, exhaustive_note):
     run_ = core.Run(prop, tier, seed)
     paths = build.build("release", ("vc",))
@@ -142,6 +216,9 @@ def run(prop, sub, tier, seed, rule, required, assumptions, exhaustive_note):
                 absorb("miri", out, " ".join(pre))
                 run_.stats["miri.clean_shards"] += 1
     phases.setdefault("miri", {})["wall_s"] = round(time.time() - t0, 1)
+
+    if sub == "c11" and tier == "thorough":
+        _fuzz_decode_phase(run_, vc, seed, phases)
 
     # distinct non-trivial cases: counted by the native run from enumerations that are distinct by construction
     run_.distinct_override = native_nontrivial
